@@ -1217,7 +1217,50 @@ func ownDirRows(lines []string) map[int]bool {
 	return out
 }
 
-func e2eAggregate(e *env, r *hutil.Rng, out *hutil.Out, wss []workspace, maxTargets int, shareRaw bool) {
+// nameStyles: the ways a caller may spell the name of the same module when it hands it over via WithInputModules:
+// relative with a leading "./", with a "dir/.." segment, absolute, and as the file:// URI the language server uses.
+// The plain relative spelling is what the workspaces themselves use.
+var nameStyles = []struct {
+	Name string
+	Fn   func(string) string
+}{
+	{"dot-slash", func(n string) string { return "./" + n }},
+	{"parent-segment", func(n string) string { return "pol/../" + n }},
+	{"absolute", func(n string) string { return "/ws/" + n }},
+	{"file-uri", func(n string) string { return "file:///ws/" + n }},
+}
+
+// respelled: the same workspaces with every file named in one style, plus one workspace per input in which every
+// file is named in a different style (rotating, starting with the plain one)
+func respelled(wss []workspace) []workspace {
+	var out []workspace
+	for _, w := range wss {
+		names := make([]string, 0, len(w.Files))
+		for n := range w.Files {
+			names = append(names, n)
+		}
+		sort.Strings(names)
+		for _, st := range nameStyles {
+			nw := workspace{Name: w.Name + "@" + st.Name, Files: map[string][]string{}}
+			for _, n := range names {
+				nw.Files[st.Fn(n)] = w.Files[n]
+			}
+			out = append(out, nw)
+		}
+		nw := workspace{Name: w.Name + "@rotating", Files: map[string][]string{}}
+		for i, n := range names {
+			if i%(len(nameStyles)+1) == 0 {
+				nw.Files[n] = w.Files[n]
+			} else {
+				nw.Files[nameStyles[(i-1)%(len(nameStyles)+1)].Fn(n)] = w.Files[n]
+			}
+		}
+		out = append(out, nw)
+	}
+	return out
+}
+
+func e2eAggregate(e *env, r *hutil.Rng, out *hutil.Out, wss []workspace, maxTargets int, shareRaw bool, onlyOne bool) {
 	type job struct {
 		c      *AggCase
 		files  map[string]string
@@ -1287,6 +1330,9 @@ func e2eAggregate(e *env, r *hutil.Rng, out *hutil.Out, wss []workspace, maxTarg
 				}
 			}
 			for _, sp := range spellings(r, tv.Title, others) {
+				if onlyOne && sp.Name != "one" {
+					continue
+				}
 				for _, pl := range placements {
 					modes := []string{"oneshot"}
 					if sp.Name == "one" && (pl == "above" || pl == "same") {
@@ -1848,8 +1894,15 @@ func main() {
 	for i := 0; i < nGenWs; i++ {
 		wss = append(wss, genWorkspace(r, i))
 	}
-	e2eAggregate(e, r, out, wss, maxAggT, tier != "thorough")
+	e2eAggregate(e, r, out, wss, maxAggT, tier != "thorough", false)
 	lap("aggregate e2e")
+	// the same aggregate-rule cases with the modules named in other spellings (quick: directive naming the rule only)
+	nameT := 2
+	if tier == "thorough" {
+		nameT = 4
+	}
+	e2eAggregate(e, r, out, respelled(wss), nameT, tier != "thorough", tier != "thorough")
+	lap("aggregate e2e, file name spellings")
 	nHist, lenHist := 2, 7
 	if tier == "thorough" {
 		nHist, lenHist = 3, 12
